@@ -122,7 +122,8 @@ fn worker(batch: &str, o: &Opts, out: &mut dyn FnMut(String)) {
             // tf:<tc>:<dir>
             let t: u8 = parts[1].parse().unwrap();
             let dir = parts[2];
-            for (name, px) in [("cube", cube.clone()), ("bits", random_bits(&mut rng, nrand)), ("unit", unit_cube(&mut rng, nrand / 4))] {
+            let bigcube: Vec<[f32; 3]> = cube.iter().cycle().take(cube.len() * 21 + 3).copied().collect();
+            for (name, px) in [("cube", cube.clone()), ("bits", random_bits(&mut rng, nrand)), ("unit", unit_cube(&mut rng, nrand / 4)), ("bigcube", bigcube), ("unit", unit_cube(&mut rng, 300_007))] {
                 let mut s = format!("\"ev\":\"total\",\"stage\":\"tf\",\"tc\":{t},\"dir\":\"{dir}\",\"input\":\"{name}\",\"npx\":{},", px.len());
                 let w = px.len();
                 run_guarded(&mut s, |b| {
@@ -162,7 +163,8 @@ fn worker(batch: &str, o: &Opts, out: &mut dyn FnMut(String)) {
         "float" => {
             // xyb / hsl stages
             for stage in ["lin2xyb", "xyb2lin", "lin2hsl", "hsl2lin"] {
-                for (name, px) in [("cube", cube.clone()), ("bits", random_bits(&mut rng, nrand)), ("unit", unit_cube(&mut rng, nrand / 4))] {
+                let bigcube: Vec<[f32; 3]> = cube.iter().cycle().take(cube.len() * 21 + 3).copied().collect();
+                for (name, px) in [("cube", cube.clone()), ("bits", random_bits(&mut rng, nrand)), ("unit", unit_cube(&mut rng, nrand / 4)), ("bigcube", bigcube), ("unit", unit_cube(&mut rng, 300_007))] {
                     let mut s = format!("\"ev\":\"total\",\"stage\":\"{stage}\",\"input\":\"{name}\",\"npx\":{},", px.len());
                     let w = px.len();
                     run_guarded(&mut s, |b| {
@@ -195,6 +197,22 @@ fn worker(batch: &str, o: &Opts, out: &mut dyn FnMut(String)) {
                             run_guarded(&mut s, |b| if st == 8 { enc::<u8>(&px, w, 1, &c, b) } else { enc::<u16>(&px, w, 1, &c, b) });
                             out(s);
                         }
+                    }
+                }
+            }
+        }
+        "encbig" => {
+            // large frames through the encoder (special values and unit cube), every matrix, 8 and 16 bit
+            let bigcube: Vec<[f32; 3]> = cube.iter().cycle().take(701 * 523).copied().collect();
+            let bigunit = unit_cube(&mut rng, 701 * 523);
+            for (mi, &m) in MC_STD.iter().enumerate() {
+                for (st, n) in [(8u8, 8u8), (16, 16), (16, 13)] {
+                    let c = Cfg { mc: m, tc: 1, cp: 1, full: mi % 2 == 0, n, ssx: 0, ssy: 0 };
+                    for (name, px) in [("bigcube", &bigcube), ("unit", &bigunit)] {
+                        let px = &px[..701 * 523];
+                        let mut s = format!("\"ev\":\"total\",\"stage\":\"enc\",\"cfg\":{},\"st\":{st},\"input\":\"{name}\",\"npx\":{},\"w\":701,\"h\":523,\"divisible\":1,", c.json(), px.len());
+                        run_guarded(&mut s, |b| if st == 8 { enc::<u8>(px, 701, 523, &c, b) } else { enc::<u16>(px, 701, 523, &c, b) });
+                        out(s);
                     }
                 }
             }
@@ -323,6 +341,7 @@ pub fn batches() -> Vec<String> {
     for m in MC_STD {
         v.push(format!("enc:{m}"));
     }
+    v.push("encbig".to_string());
     v.push("encgeom".to_string());
     v.push("decgeom".to_string());
     v.push("chain".to_string());
